@@ -1,10 +1,19 @@
+\* C13 - the memory backend as it is (or, through the placeholders, one of its named variants) refines the reference:
+\* every interleaving of client sections, sweep sections, the ticker switch and clock ticks over one key-type family.
 CONSTANTS
   Keys = @@KEYS@@
   Vals = {"a", "b"}
   MaxClock = 2
   OldCAS = @@OLDCAS@@
   OldSetExp = @@OLDSETEXP@@
+  Procs = @@PROCS@@
+  Sweepers = @@SWEEPERS@@
+  Sweep = @@SWEEP@@
+  Evict = "recheck"
+  LazyReads = @@LAZY@@
+  Emit = FALSE
 INIT Init
 NEXT Next
-INVARIANTS StoresAgree AnswersAgree
+INVARIANTS TypeOK StoresAgree AnswersAgree NeverExpiringStays
+PROPERTY SilentInvisible
 CHECK_DEADLOCK FALSE
